@@ -14,6 +14,8 @@ change of any of these bodies either keeps the proof (behaviour-preserving) or b
 Read as flags / constants (Definition gen_... : bool / N):
 
     layered.rs       Layered::new: which type parameter is compared with Registry for inner_is_registry
+    layered.rs       Layered::downcast_raw (Subscribe: PSF marker needs both halves, any other id either half; Collect: either) and
+                     the arguments of the two max_level_hint calls of pick_level_hint
     subscribe/mod.rs Vec::register_callsite accumulators (any_never |= is_never, all_always &= is_always; never / always / sometimes)
     subscribe/mod.rs Vec::max_level_hint (starts at OFF, `?` on an element's None, cmp::max)
     subscribe/mod.rs Vec::downcast_raw: NoneLayerMarker answered iff self.is_empty()
@@ -780,6 +782,26 @@ def main(repo, _unused=None):
         and norm(fn_body(opt_impl(), "max_level_hint", "Option")) == norm("match self { Some(ref inner) => inner.max_level_hint(), None => { Some(LevelFilter::OFF) } }")
         and norm(fn_body(opt_impl(), "enabled", "Option")) == norm("match self { Some(ref inner) => inner.enabled(metadata, ctx), None => true, }")
         and norm("elseifid==TypeId::of::<NoneLayerMarker>()&&self.is_none(){Some(NonNull::from(&NONE_LAYER_MARKER).cast())}") in norm(fn_body(opt_impl(), "downcast_raw", "Option"))))
+
+    def layered_sub_impl():
+        return block_after(layered, r"impl\s*<\s*C\s*,\s*A\s*,\s*B\s*>\s*Subscribe\s*<\s*C\s*>\s*for\s+Layered\s*<\s*A\s*,\s*B\s*,\s*C\s*>\s*where[^{]*\{", "impl Subscribe for Layered")
+
+    def layered_col_impl():
+        return block_after(layered, r"impl\s*<\s*S\s*,\s*C\s*>\s*Collect\s+for\s+Layered\s*<\s*S\s*,\s*C\s*>\s*where[^{]*\{", "impl Collect for Layered")
+    # the marker downcasts of a Layered: as a Subscribe (and_then pair) the per-subscriber-filter marker needs BOTH
+    # halves, every other id (incl. the none-layer marker) EITHER half; as a Collect every id either half
+    flag("gen_layered_markers", lambda: (
+        norm(fn_body(layered_sub_impl(), "downcast_raw", "Layered as Subscribe")) == norm(
+            "match id { id if id == TypeId::of::<Self>() => Some(NonNull::from(self).cast()), "
+            "id if filter::is_psf_downcast_marker(id) => self.subscriber.downcast_raw(id).and(self.inner.downcast_raw(id)), "
+            "_ => self.subscriber.downcast_raw(id).or_else(|| self.inner.downcast_raw(id)), }")
+        and norm(fn_body(layered_col_impl(), "downcast_raw", "Layered as Collect")) == norm(
+            "if id == TypeId::of::<Self>() { return Some(NonNull::from(self).cast()); } "
+            "self.subscriber.downcast_raw(id).or_else(|| self.inner.downcast_raw(id))")
+        and norm(fn_body(layered_sub_impl(), "max_level_hint", "Layered as Subscribe")) == norm(
+            "self.pick_level_hint( self.subscriber.max_level_hint(), self.inner.max_level_hint(), super::subscriber_is_none(&self.inner), )")
+        and norm(fn_body(layered_col_impl(), "max_level_hint", "Layered as Collect")) == norm(
+            "self.pick_level_hint( self.subscriber.max_level_hint(), self.inner.max_level_hint(), super::collector_is_none(&self.inner), )")))
 
     def filtered_impl():
         return block_after(psf, r"impl\s*<\s*C\s*,\s*S\s*,\s*F\s*>\s*Subscribe\s*<\s*C\s*>\s*for\s+Filtered\s*<\s*S\s*,\s*F\s*,\s*C\s*>\s*where[^{]*\{", "impl Subscribe for Filtered")
